@@ -29,8 +29,8 @@ Print Assumptions C09_indices.
    lists with `to` and `last` offsets over the whole i32 range, filters, top-level predicates, comparisons and binary
    arithmetic over path and literal operands, unary sign over a path operand, exists(...), and every nesting of && and ||),
    whose plain names have no delimiter byte or backslash, whose quoted names and string literals have no quote or
-   backslash, whose integer literals are typed as the parser types them (u64 / negative i64), at depth < 200 (the fuel
-   of the printer model). Floats: under the per-float hypothesis that the printer's text is read back by the literal
+   backslash, whose integer literals are typed as the parser types them (u64 / negative i64), of ANY length and nesting
+   depth (printer model and class recurse on the structure of the AST: no fuel, no depth bound). Floats: under the per-float hypothesis that the printer's text is read back by the literal
    reader (pf, the float printer, is a parameter). Excluded, with witnesses in PathRoundtrip.v: a digit-initial first
    name of an un-rooted path (unrooted_digit_name_refuted), non-negative Int64 literals
    (plus_signed_literal_reparsed_unsigned), names that need quotes (name_needing_quotes_refuted); trees the parser
@@ -45,6 +45,23 @@ Theorem C09_print_then_parse_is_identity : forall pf ps, safe_path no_floats ps 
   parse_json_path (show_json_path pf ps) = Ok ps.
 Proof. exact path_roundtrip. Qed.
 Print Assumptions C09_print_then_parse_is_identity.
+
+(* no depth bound: a chain of 250 `&&` terms (left-nested 250 deep, as the parser builds it) is in the class, is printed in
+   full (the crate prints the same text: correspondence cases of C09) and parses back *)
+Fixpoint C09_and_chain (n : nat) : expr :=
+  match n with
+  | O => EBin OEq (EPaths [PCurrent; PDotField [97]]) (EValue (PVNum (NUInt 1)))
+  | S k => EBin OAnd (C09_and_chain k) (EBin OLt (EPaths [PCurrent; PDotField [98]]) (EValue (PVNum (NUInt 2))))
+  end.
+Example C09_deep_chain_round_trips :
+  let ps := [PRoot; PFilter (C09_and_chain 250)] in
+  safe_path no_floats ps = true /\ length (show_json_path (fun _ => []) ps) = 3260%nat /\
+  parse_json_path (show_json_path (fun _ => []) ps) = Ok ps.
+Proof.
+  intros ps. assert (S : safe_path no_floats ps = true) by (vm_compute; reflexivity).
+  split; [exact S|]. split; [vm_compute; reflexivity|]. apply C09_print_then_parse_is_identity. exact S.
+Qed.
+Print Assumptions C09_deep_chain_round_trips.
 
 (* $.store.book[0, 2 to last, last-1]?((@.price < 10 && (@.a == "x y" || exists(@.b?($.c != null)))) || -5 >= $.d).title *)
 Definition C09_example_path : list path :=
